@@ -180,9 +180,11 @@ def evaluate(pid, cases, oc=None, compare_outside_domain=False):
             if ie != me:
                 oc.disagreements.append(dict(rec, what='classification', impl=ie, model=me))
             continue
-        if o['kind'] != r['kind']:
+        class_differs = o['kind'] != r['kind']
+        if class_differs:
+            # the library built an object of another class than the message element determines (C08): what it then
+            # did to the running order is still judged against the spec of the class the document has
             oc.disagreements.append(dict(rec, what='class', impl=o['kind'], model=r['kind']))
-            continue
         model = r['model']
         props = r['props']
         dom = props[pid]['dom']
@@ -191,7 +193,7 @@ def evaluate(pid, cases, oc=None, compare_outside_domain=False):
             oc.in_domain += 1
             oc.count('in-domain:' + c['cls'])
         impl_o = {'err': o['err'], 'warns': o['warns'], 'ro': o['ro']}
-        if dom or compare_outside_domain:
+        if (dom or compare_outside_domain) and not class_differs:
             pi, pm = proj(impl_o, ro_t), proj(model, ro_t)
             if pi != pm:
                 oc.disagreements.append(dict(rec, what=f'projection of {pid}',
